@@ -1016,6 +1016,36 @@ void at_level(Ctx& cx, View v, std::size_t depth)
     });
 }
 
+// type-level descent: the view type of group `rq.member` of the level reached through rq.path
+template<class L, class View, class F>
+void group_type_at(const Req& rq, std::size_t depth, F&& f, Res& rs)
+{
+    if(depth == rq.path.size())
+    {
+        if(rq.member >= L::n_groups)
+        {
+            rs.unsupported = true;
+            return;
+        }
+        L::group(rq.member, [&](auto, auto, auto acc, auto) {
+            using G = typename std::decay<decltype(acc(std::declval<View&>()))>::type;
+            f(type_c<G>{});
+        });
+        return;
+    }
+    if(rq.path[depth].group >= L::n_groups)
+    {
+        rs.unsupported = true;
+        return;
+    }
+    L::group(rq.path[depth].group, [&](auto child, auto, auto acc, auto) {
+        using Child = typename decltype(child)::type;
+        using G = typename std::decay<decltype(acc(std::declval<View&>()))>::type;
+        using E = typename std::decay<decltype(*std::declval<G&>().begin())>::type;
+        group_type_at<Child, E>(rq, depth + 1, f, rs);
+    });
+}
+
 // ---------------------------------------------------------- message dispatch
 template<class Msg, class TagId>
 void message_op(Ctx& cx, const SchemaShape& sh)
@@ -1029,18 +1059,15 @@ void message_op(Ctx& cx, const SchemaShape& sh)
     MV m{p, rq.n};
     if(rq.target == T_GROUP_AT_P)
     {
-        if(rq.member >= L::n_groups)
-        {
-            rs.unsupported = true;
-            return;
-        }
-        L::group(rq.member, [&](auto, auto, auto acc, auto) {
-            using G = decltype(acc(std::declval<CMV>()));
+        // rq.path names the chain of groups (entry indexes are irrelevant: only types are needed)
+        // down to the level that owns group rq.member; the group view is constructed directly at p
+        group_type_at<L, CMV>(rq, 0, [&](auto gt) {
+            using G = typename decltype(gt)::type;
             G g{const_cast<const char*>(p), rq.n};
             auto r = sbepp::size_bytes_checked(g, rq.size_arg >= 0 ? (std::size_t)rq.size_arg : rq.n);
             rs.valid = r.valid;
             rs.size = r.size;
-        });
+        }, rs);
         return;
     }
     if(rq.target != T_MESSAGE)
